@@ -28,7 +28,8 @@ Correspondence (real code vs compiled model driver, every observable the propert
   clip      Grid.clip on boxes with both corners inside the extent against `clip` (bit-equal corner, data, parent):
             free boxes and lattice-aligned ones (decimal cell sizes 0.1, 0.05, 0.025, ...; corners ON cell edges, on
             centres, on quarters, and one ulp either side);
-  histories on ONE object (2-4 steps, every answer compared with the model / oracle on the CURRENT state): save -> edits
+  histories a raster of either byte order is loaded, (edited,) saved again to a new path and loaded once more, all dtypes;
+            on ONE object (2-4 steps, every answer compared with the model / oracle on the CURRENT state): save -> edits
             (item writes, writes through the returned array, fill, equal-size data re-assignment, re-assignment of name,
             comment, corner, cell size, no-data) -> save again to the same path -> load (`edits`, `save`, `load`); edit of the
             array given to the setter; load -> edit -> to_dict -> from_dict, dictionary edited by the caller -> to_dict again,
@@ -506,6 +507,43 @@ def body(ctx):
             check_bits(ctx, "load/byteorder_M/data", "a big-endian raster (BYTEORDER M) is not decoded with its byte order",
                        g.data, g3.data, {**case, "how": howM, "palindromic": palin})
         ctx.count(("loadM", tname, shape, tuple(uview(vals).flat[:6])), t.itemsize > 1, f"loadM/{tname}")
+
+        # --- history: a grid LOADED from a raster (big-endian here, little-endian for g2) is (optionally edited and) SAVED
+        # again to a new path and loaded once more: cells, dtype, georeferencing, no-data of the second load = the
+        # loaded grid's current state (theorems save_load / save_load_after_edits after fromStream_file)
+        for src, gl in (("M", g3), ("I", g2)):
+            if np.dtype(gl.dtype) != t:
+                continue
+            c3 = {**case, "op": f"history/load{src}_save_load", "loaded_from": src}
+            if rng.random() < 0.5:
+                toks0 = grid_toks(gl)
+                w = gen_words(rng, t, 1)[0]
+                idx = rng.randrange(gl.data.size)
+                gl[idx] = np.array([w], dtype="u%d" % t.itemsize).view(t)[0]
+                ask(f"edits {toks0} i:{idx}:{w}", "grid", obs_real(gl), {**c3, "edit": [idx, w]})
+            pR = work / f"resaved{src}.bil"
+            try:
+                gl.save(pR)
+            except Exception as e:  # noqa
+                ctx.finding(f"history/load{src}_save/raises", "a loaded grid cannot be saved again", {**c3, "error": f"{exc_class(e)}: {e}"[:200]})
+                continue
+            hR = pR.with_suffix(".hdr").read_text()
+            bR = pR.read_bytes()
+            ask("save " + grid_toks(gl), "save", (canon_header(hR, t), bR.hex()), {**c3, "dtype": tname, "header": hR})
+            howR = ["from_header", "from_stream", "from_zip"][(it + 1) % 3]
+            try:
+                g5, defname = read_back(pR.with_suffix(".hdr"), howR)
+            except Exception as e:  # noqa
+                ctx.finding(f"history/load{src}_save_load/cannot_read_back", "a loaded grid saved again cannot be loaded",
+                            {**c3, "how": howR, "error": f"{exc_class(e)}: {e}"[:200], "header": hR})
+                continue
+            ask(load_request(defname, hR, bR), "load", ("I", obs_real(g5)), {**c3, "how": howR, "header": hR})
+            check_meta(ctx, f"history/load{src}_save_load", gl, g5, {**c3, "how": howR, "header": hR})
+            if np.dtype(g5.dtype) == t:
+                check_bits(ctx, f"history/load{src}_save_load/data",
+                           f"a grid loaded from a BYTEORDER {src} raster, saved again and loaded has other cell values", gl.data, g5.data,
+                           {**c3, "how": howR, "header": hR})
+            ctx.count(("resave", src, tname, shape, tuple(uview(gl.data).flat[:6])), True, f"history/load{src}_save_load/{tname}")
 
 
     def ilist(x):
